@@ -355,6 +355,9 @@ func iterMutCheck(build func() Inst, st *Stats) *Viol {
 	}
 	for _, s0 := range starts {
 		for _, o := range ops {
+			if o.N == "New" {
+				continue // a constructor call makes another container
+			}
 			for _, cont := range iterMutConts {
 				usesRev := false
 				for _, c := range cont {
